@@ -144,11 +144,18 @@ def r3(fx):
             ok = isinstance(res, tuple) and res[0] == k and t == ('masked', k, c0) and not [x for x in log if x[0] == 'eval']
             yield ob(f'{"Micro" if micro else "QR"} requested mask {k}', ok, fn, got=(res[0] if isinstance(res, tuple) else res, t, log[:3]),
                      want=f'({k}, matrix masked once with predicate {k}), no evaluation')
+    # _encode hands its mask argument (and the matrix it built) to the mask stage: read off the stage trace
+    from .models import trace_encode
     enc = fx.fn('encoder', '_encode')
-    a = single([s for s in enc.body if isinstance(s, ast.Assign) and 'find_and_apply_best_mask' in ast.unparse(s.value)], 'mask stage')
-    b = pat.need(a.value, 'find_and_apply_best_mask(matrix, width, height, H_m)', 'mask stage call')
-    yield ob('_encode passes its mask argument as the proposed mask', pat.slot(b['m'], ['mask'], 'proposed mask'), a,
-             got=ast.unparse(a.value), want='find_and_apply_best_mask(matrix, width, height, mask)')
+    bad = []
+    for v, mask_in in ((5, None), (5, 6), (-2, 3), (-3, None)):
+        rv = micro_versions(fx)[v] if v < 1 else v
+        lvl = None if v == -3 else 'L'
+        rec, res, info = trace_encode(fx, rv, lvl, lvl, mask_in=mask_in)
+        fm = [r for r in rec if r[0] == 'find_and_apply_best_mask']
+        if len(fm) != 1 or fm[0][1][0] is not info['M0'] or (list(fm[0][1][3:]) + [fm[0][2].get('proposed_mask')])[0] != mask_in:
+            bad.append((v, mask_in, [(r[1][1:], r[2]) for r in fm]))
+    yield ob('_encode passes its mask argument as the proposed mask', not bad, enc, got=bad or 'as required', want='find_and_apply_best_mask(<the matrix>, width, height, mask)')
 
 
 def _region_closure(fx, it, n):
